@@ -910,3 +910,94 @@ def check_range_rejections(ctx, rule, P, fn_key, params, valid, grid, describe):
         conds = " & ".join("%s%s %s %s" % ("" if p else "!", show(a[3], 3), a[2], show(a[4], 3)) for a, p in cmps)
         ctx.ob(rule, "%s/err[%s]" % (fn_key, conds[:80]), bad is None, "%s rejects when %s: %s" % (fn_key, conds, "no valid %s is rejected (folded over the grid)" % describe if bad is None else "REJECTS the valid %s %s" % (describe, dict(zip(params, bad)))), where=where(f, b))
     return n
+
+
+def check_len_rejections(ctx, rule, P, fn_key, list_param, valid_len, lengths, describe):
+    """Own rejections by the NUMBER of list elements: every Err exit of fn (spliced helpers included) whose path condition
+    consists of comparisons between `len(list_param)` and constants is evaluated for each length of `lengths`; no
+    admitted length may be refused ("any t or more shares ... up to 255").  Returns the number of such exits."""
+    from . import guardrules as R
+
+    f = P.fns.get(fn_key)
+    if f is None:
+        return 0
+    ev = evaluate(f)
+    n = 0
+    for b in R.err_blocks(f):
+        lits = G.path_literals(ev, b, P, checks_only=True)
+        cmps = []
+        for a, pol in lits:
+            if not (a[0] == "atom" and a[1] == "cmp"):
+                continue
+            sides = (a[3], a[4])
+            lens = [x for x in sides if R._is_len_of(x, list_param)]
+            if len(lens) != 1:
+                continue
+            other = sides[1] if lens[0] is sides[0] else sides[0]
+            if any(x.op in ("param", "call", "mutcall", "loop", "phi") for x in subterms(other)):
+                continue
+            cmps.append((a, pol, lens[0]))
+        if not cmps:
+            continue
+        n += 1
+        bad = None
+        for L in lengths:
+            try:
+                holds = True
+                for a, pol, lt in cmps:
+                    env = {lt: (L, 64, False)}
+                    x, y = eval_int(a[3], env)[0], eval_int(a[4], env)[0]
+                    r = {"Lt": x < y, "Le": x <= y, "Gt": x > y, "Ge": x >= y, "Eq": x == y, "Ne": x != y}[a[2]]
+                    if r != pol:
+                        holds = False
+                        break
+            except Exception:
+                holds = False
+            if holds and valid_len(L):
+                bad = L
+                break
+        conds = " & ".join("%s%s %s %s" % ("" if p else "!", show(a[3], 3), a[2], show(a[4], 3)) for a, p, _ in cmps)
+        ctx.ob(rule, "%s/err[%s]" % (fn_key, conds[:80]), bad is None, "%s rejects when %s: %s" % (fn_key, conds, "no admitted %s is refused" % describe if bad is None else "REFUSES the admitted %s %d" % (describe, bad)), where=where(f, b))
+    return n
+
+
+COMBINERS = (
+    ("SecretKey<C>::combine", "vsss_rs::combine_shares"),
+    ("Signature<C>::from_shares", "BlsSignatureCore::core_combine_signature_shares"),
+    ("PublicKey<C>::from_shares", "BlsSignatureCore::core_combine_public_key_shares"),
+    ("SignCryptDecryptionKey<C>::from_shares", "BlsSignatureCore::core_combine_public_key_shares"),
+    ("ElGamalDecryptionKey<C>::from_shares", "BlsSignatureCore::core_combine_public_key_shares"),
+)
+
+
+def check_combiner_images(ctx, rule, P, only=None):
+    """Every share handed to a recombination function reaches the combiner: the combiner's argument is a 1:1 image of
+    the whole `shares` list (no share dropped, filtered out, deduplicated or replaced)."""
+    for fk, sink in COMBINERS:
+        if only is not None and fk not in only:
+            continue
+        f = ctx.need_fn(rule, fk, P)
+        if f is None:
+            continue
+        ev = evaluate(f)
+        sites = [s for s in ev.sites.values() if s.callee[0] == sink or s.callee[0].endswith("::" + sink)]
+        ok = False
+        shown = None
+        if sites:
+            shown = show(strip_sites(sites[0].args[0]), 5)
+            x, steps = image_source(P, f, ev, sites[0].args[0])
+            ok = x is not None and x.op == "param" and x.a[1] == "shares"
+            if x is None:
+                shown = "%s - %s" % (shown, steps)
+        ctx.ob(rule, fk, ok, "%s receives a 1:1 image of the whole `shares` list: %s" % (sink, shown), where=where(f))
+
+
+def check_combiner_lengths(ctx, rule, P):
+    """No recombination function (or the core combiner it calls) refuses a share count between 2 and 255."""
+    n = 0
+    lengths = [0, 1, 2, 3, 4, 127, 128, 253, 254, 255, 256, 300]
+    for fk, _ in COMBINERS:
+        n += check_len_rejections(ctx, rule, P, fk, "shares", lambda L: 2 <= L <= 255, lengths, "share count")
+    for fk in ("BlsSignatureCore::core_combine_signature_shares", "BlsSignatureCore::core_combine_public_key_shares"):
+        n += check_len_rejections(ctx, rule, P, fk, "shares", lambda L: 2 <= L <= 255, lengths, "share count")
+    ctx.ob(rule, "census", True, "%d own rejection(s) by share count inspected" % n)
